@@ -40,6 +40,15 @@ fn main() {
         }
         "replay" => replay_main(&|id| find_prop(id), &args[2]),
         "c20run" => props::repro::c20run_main(&args[2..]),
+        "symshards" => {
+            // debug helper: symbol-table shard of each symbol of the C20 histories
+            use slotted_egraphs::*;
+            use std::num::NonZeroU32;
+            for s in ["f", "g", "a", "b", "c", "h", "map", "zero", "apply", "two", "x", "y", "one", "p", "q", "r", "s", "t", "u", "v", "w"] {
+                println!("{s} {}", NonZeroU32::from(Symbol::from(s)).get() >> 28);
+            }
+            0
+        }
         "genmulti" => {
             // debug helper: size (and optionally the content) of the generated multi-pattern pools
             println!("single level 2: {} patterns", props::matches::generated_single_pool(2).len());
